@@ -250,7 +250,7 @@ package sqlite
 //@ ensures err == nil ==> len(result0) == len(transactions)
 
 //@ func (*SqliteStoreWorker).Execute
-//@ props C06 C16 C17 C02
+//@ props C06 C16 C17 C02 C05 C01
 //@ nopanic C13
 //@ ghostdb store
 //@ requires w.config != nil && w.db != nil
@@ -259,7 +259,7 @@ package sqlite
 //@ ensures err != nil ==> txlog() == "" || txlog() == "begin,perform-err,rolledback" || txlog() == "begin,perform-err,rollback-failed" || txlog() == "begin,perform-ok,commit-failed"
 
 //@ func (*SqliteStoreWorker).readPromises
-//@ props C16 C17 C02 C20
+//@ props C16 C17 C02 C20 C01 C04
 // every returned record is the row it was scanned from, column by column (C01, C20: what a sweep or a search reports is what is stored)
 //@ site loop 1 backedge assert scanned(rows, record, "ReadPromises")
 //@ nopanic C13
@@ -269,7 +269,7 @@ package sqlite
 //@ ensures err == nil ==> result != nil
 
 //@ func (*SqliteStoreWorker).searchPromises
-//@ props C16 C17 C02 C20 C14
+//@ props C16 C17 C02 C20 C14 C01 C04
 // every returned record is the row it was scanned from, column by column (C01, C20: what a sweep or a search reports is what is stored)
 //@ site loop 3 backedge assert scanned(rows, record, "SearchPromises")
 // result wiring (C14): every scanned row is returned, in scan order; the cursor value is the last row's sort id
@@ -290,7 +290,7 @@ package sqlite
 //@ ensures err == nil ==> result != nil
 
 //@ func (*SqliteStoreWorker).readSchedules
-//@ props C16 C17 C02 C20
+//@ props C16 C17 C02 C20 C10
 // every returned record is the row it was scanned from, column by column (C01, C20: what a sweep or a search reports is what is stored)
 //@ site loop 1 backedge assert scanned(rows, record, "ReadSchedules")
 //@ nopanic C13
@@ -300,7 +300,7 @@ package sqlite
 //@ ensures err == nil ==> result != nil
 
 //@ func (*SqliteStoreWorker).searchSchedules
-//@ props C16 C17 C02 C20 C14
+//@ props C16 C17 C02 C20 C14 C10
 // every returned record is the row it was scanned from, column by column (C01, C20: what a sweep or a search reports is what is stored)
 //@ site loop 2 backedge assert scanned(rows, record, "SearchSchedules")
 // result wiring (C14): every scanned row is returned, in scan order; the cursor value is the last row's sort id
@@ -317,7 +317,7 @@ package sqlite
 //@ ensures err == nil ==> result != nil
 
 //@ func (*SqliteStoreWorker).readTasks
-//@ props C16 C17 C02 C20
+//@ props C16 C17 C02 C20 C07 C08
 // every returned record is the row it was scanned from, column by column (C01, C20: what a sweep or a search reports is what is stored)
 //@ site loop 2 backedge assert scanned(rows, record, "ReadTasks")
 //@ nopanic C13
@@ -328,7 +328,7 @@ package sqlite
 //@ ensures err == nil ==> result != nil
 
 //@ func (*SqliteStoreWorker).readEnqueueableTasks
-//@ props C16 C17 C02 C20
+//@ props C16 C17 C02 C20 C07 C08
 // every returned record is the row it was scanned from, column by column (C01, C20: what a sweep or a search reports is what is stored)
 //@ site loop 1 backedge assert scanned(rows, record, "ReadEnqueueableTasks")
 //@ nopanic C13
